@@ -333,5 +333,33 @@ def run(F, rep, tier):
             rep.ok('R9.5', 'builtin %s' % nm, 'retain on a, membership test in b')
         else:
             rep.viol('R9.5', 'builtin|%s|bias' % nm, '%s filters the operand from parameter(s) %s instead of the left one' % (nm, sorted(recv)), ret[0].loc())
+    # ---------------- R9.6
+    rep.rule('R9.6', 'hashing never narrows: the hash functions of keys (total_hash_of_key, ObjKey/NInt Hash impls, NNum::total_hash, '
+             'consistent_hash_rational / consistent_hash_f64) contain no float->int or narrowing integer `as` cast, and NInt::hash decides '
+             '"fits a machine word" with to_i64() (the same test PartialEq uses), not with a bit count - a saturating or magnitude-based shortcut '
+             'separates the hashes of two equal numbers at the i64 boundary')
+    from .census import Census, lossy_casts
+    C9 = Census(F)
+    hfs = [p_ for p_ in F.fns if re.search(r'^core::total_hash_of_key$|^<core::ObjKey as std::hash::Hash>::hash$|^<nint::NInt as std::hash::Hash>::hash$|^nnum::consistent_hash_(rational|f64)$|^nnum::NNum::total_hash$', p_)]
+    if len(hfs) < 6:
+        rep.error('R9.6', 'hash functions found: %s' % sorted(hfs))
+    hset = set(hfs)
+    for h in hfs:
+        hset |= set(F.closures_of(h))
+    lc = lossy_casts(C9, hset)
+    for row in lc:
+        fk, kind, b_, bb = row[0], row[1], row[2], row[3]
+        rep.viol('R9.6', '%s|cast|%s' % (fk, kind), 'the key hash %s narrows a number with `as` (%s): values at the edge of the target range saturate / wrap, so two numbers that compare equal (2.0^63 and 2^63) hash differently and a dict lookup misses' % (fk, kind), b_.loc(bb))
+    if not lc:
+        rep.ok('R9.6', 'hash functions', '%d function(s), no narrowing cast' % len(hset))
+    nh = '<nint::NInt as std::hash::Hash>::hash'
+    if F.has_fn(nh):
+        nb = F.body(nh)
+        bits = [c for c in nb.calls if c.target.rsplit('::', 1)[-1] in ('bits', 'magnitude', 'to_u64', 'to_i32', 'to_u32', 'iter_u64_digits', 'to_u64_digits')]
+        toi = [c for c in nb.calls if c.target.endswith('to_i64')]
+        if bits or not toi:
+            rep.viol('R9.6', 'NInt::hash|word-test', 'NInt::hash decides whether a big-representation integer hashes like a machine word with %s instead of to_i64(): -2^63 has a 64-bit magnitude but fits a word, so the two representations of it hash apart' % (sorted({c.target.rsplit('::', 1)[-1] for c in bits}) or 'no to_i64 test'), (bits or [None])[0].loc() if bits else nb.loc(0))
+        else:
+            rep.ok('R9.6', 'NInt::hash word test', 'to_i64()')
     rep.undecided += ['histories of dictionary operations', 'HashMap itself (std)']
     return META
